@@ -232,19 +232,24 @@ func ruleC16E3(r *Run, le *LockEngine) {
 		}
 		b1, b2 := baseOf(lk.Index), baseOf(del.Call.Args[1])
 		okSame := b1 != nil && b1 == b2 && canonVal(snd.X) == b1
-		okOrder := dominatesInstr(del, snd)
+		okOrder := false // the delete happens on the found edge (the entry is released whenever it is delivered)
 		okFound := false
 		if lk.CommaOk && lk.Referrers() != nil {
 			for _, ref := range *lk.Referrers() {
-				if ex, isEx := ref.(*ssa.Extract); isEx && ex.Index == 1 && condTrueDominates(fn, ex, snd) {
-					okFound = true
+				if ex, isEx := ref.(*ssa.Extract); isEx && ex.Index == 1 {
+					if condTrueDominates(fn, ex, snd) {
+						okFound = true
+					}
+					if condTrueDominates(fn, ex, del) || dominatesInstr(del, snd) {
+						okOrder = true
+					}
 				}
 			}
 		}
 		h := le.HeldAt(snd)
 		_, held := h[fn.Params[0].Name()+"."+tc.mu]
 		r.Check(name+" dispatch", okKeys && okSame && okOrder && okFound && !held, posOf(p, snd), name,
-			fmt.Sprintf("keys from the message's %s: %v; lookup, delete and delivery use one message: %v; delete before delivery: %v; found edge only: %v; delivered outside the lock: %v", tc.keyField, okKeys, okSame, okOrder, okFound, !held))
+			fmt.Sprintf("keys from the message's %s: %v; lookup, delete and delivery use one message: %v; entry deleted whenever found: %v; found edge only: %v; delivered outside the lock: %v", tc.keyField, okKeys, okSame, okOrder, okFound, !held))
 	}
 }
 
